@@ -2954,6 +2954,9 @@ digest_auth_check_all_inner (struct MHD_Connection *connection,
                                 &unquoted);
   if (_MHD_UNQ_OK != unq_res)
     return MHD_DAUTH_ERROR;
+  /* The decoded value must fit hash1_bin[] */
+  if (digest_size * 2 < unquoted.len)
+    return MHD_DAUTH_RESPONSE_WRONG;
   if (digest_size != MHD_hex_to_bin (unquoted.str, unquoted.len, hash1_bin))
     return MHD_DAUTH_RESPONSE_WRONG;
 
